@@ -175,8 +175,19 @@ def check_batch(ctx, g, u, stream):
     lines = []
     results = []
     for s in S_VALUES:
-        latP, lonP = g.find_lat_long_along_traj(s)
-        results.append((np.asarray(latP, dtype=np.float64), np.asarray(lonP, dtype=np.float64)))
+        try:
+            latP, lonP = g.find_lat_long_along_traj(s)
+            latP = np.atleast_1d(np.asarray(latP, dtype=np.float64)); lonP = np.atleast_1d(np.asarray(lonP, dtype=np.float64))
+            bad_shape = latP.shape != (len(kept),) or lonP.shape != (len(kept),)
+            err = f"shapes {latP.shape}, {lonP.shape}"
+        except Exception as ex:  # noqa
+            bad_shape, err = True, f"{type(ex).__name__}: {str(ex)[:120]}"
+        if bad_shape:
+            ctx.violation("RegionGeom.find_lat_long_along_traj", "one-position-per-kept-trajectory",
+                          f"positions along the trajectories do not describe the {len(kept)} kept events of the most recent throw ({err})",
+                          {"cfg": list(g._verif_cfg), "s": s, "kept_events": int(len(kept)), "stream": stream, "u_hex_first_event": fh(u[:, kept[0]])})
+            return
+        results.append((latP, lonP))
         for k, i in enumerate(kept):
             lines.append(f"geoalong {f2h(R)} {ev_hex(arr[i], True)} {f2h(s)}")
             lines.append(f"geoalongres {f2h(R)} {f2h(arr[i,10])} {f2h(arr[i,11])} {f2h(arr[i,9])} {f2h(latP[k])} {f2h(lonP[k])} {f2h(s)}")
@@ -258,6 +269,13 @@ def run(ctx: Ctx):
         g = make_geom(*c)
         u = rng.random((4, nev))
         check_batch(ctx, g, u, "structured")
+    # ---- call histories on ONE object: throw, positions along the trajectories, throw again with other numbers (other
+    # batch size, reversed order), positions again: every answer must describe the most recent throw
+    for c in cfgs[: (8 if ctx.thorough else 3)]:
+        g = make_geom(*c)
+        ua = rng.random((4, 60))
+        for u_h in (ua, rng.random((4, 35)), ua[:, ::-1].copy(), rng.random((4, 60))):
+            check_batch(ctx, g, u_h, "history")
     # ---- boundary stream: faces, edges, corners of the cube x 40 altitudes
     tiny, eps = 5e-324, 2.0 ** -53
     levels = [0.0, tiny, eps, 0.5, float(1 - eps), 1.0] if ctx.thorough else [0.0, eps, 0.5, 1.0]
